@@ -333,7 +333,11 @@ def case_product_zip(ctx, inp):
     import dask.bag as db
     a, b2 = inp["a"], inp["b"]
     A, B = mk_bag(a), mk_bag(b2)
-    got = [[list(xy) for xy in p] for p in parts_of(A.product(B))]
+    try:
+        got = [[list(xy) for xy in p] for p in parts_of(A.product(B))]
+    except Exception as e:
+        ctx.fail(f"product raised {type(e).__name__}: {e}", observed=repr(e)[:200])
+        return
     ctx.eq("Bag.product partitions", ctx.lean(Sym("product"), a, b2), got)
     fa, fb = [x for p in a for x in p], [x for p in b2 for x in p]
     if sorted(map(tuple, (xy for p in got for xy in p))) != sorted(itertools.product(fa, fb)):
@@ -496,7 +500,13 @@ def _sync(fn):
     return wrapped
 
 
-CASES = {"accumulate": case_accumulate, "take": case_take, "repartition": case_repartition, "reduce": case_reduce,
+def case_tree(ctx, inp):
+    """Runtime structure of Bag.reduction (skipped partitions, grouping, tasks per level) — shared with C49."""
+    from props.c49 import case_tree as _t
+    _t(ctx, inp)
+
+
+CASES = {"tree": case_tree, "accumulate": case_accumulate, "take": case_take, "repartition": case_repartition, "reduce": case_reduce,
          "stagesk": case_stagesk, "digits": case_digits, "groupby_tasks": case_groupby_tasks,
          "groupby_api": case_groupby_api, "product_zip": case_product_zip, "api": case_api}
 CASES = {k: _sync(v) for k, v in CASES.items()}
@@ -556,6 +566,11 @@ def generate(ctx):
         km = rng.randint(1, 8)
         yield "groupby_tasks", {"parts": parts, "km": km, "hashes": [rng.randint(0, rng.choice([5, 50, 10 ** 6])) for _ in range(km)],
                                 "mb": rng.choice([None, 2, 2, 3, 4])}
+    for n in range(1, 5 if not th else 8):
+        for mask in range(2 ** n):
+            yield "tree", {"sizes": [(mask >> i) & 1 for i in range(n)], "se": rng.choice([2, 3, None, False])}
+    for _ in range(ctx.n(40, 600)):
+        yield "tree", {"sizes": [rng.choice([0, 1, 1, 2]) for _ in range(rng.randint(1, 40))], "se": rng.choice([2, 3, 4, 8, None, False])}
     for _ in range(ctx.n(200, 3000)):
         parts = gen_parts(rng)
         yield "accumulate", {"parts": parts, "op": rng.choice(["add", "sub", "max", "lin", "right", "mul"]),
